@@ -1,14 +1,20 @@
 /-
   Line handler for C12: histories of chaining calls (same step grammar as C08), conversions and parses.
 
-    c12 <Base> <bag> <vals> <len> <cap> | <recv> <class> … | <i> conv <optionSet> 0 0 <bag> <vals> 0 ToJSONSchema@T | <i> parse 0 0 0 <bag> <vals> 0 Parse@T | …
+    c12 <Base> <bag> <vals> <len> <cap> | <recv> <class> … | <i> conv <optionSet> <def> <metas> <bag> <vals> 0 ToJSONSchema@T | <i> parse 0 0 0 <bag> <vals> 0 Parse@T | …
+
+  <def>: `0`, or the definition-held member list of the converted schema: `L<A|C><graph>` (literal: what `Values()` hands out,
+  A = the definition's own slice, C = a copy; graph `[1,[2,3],1]`, scalars are value ids, 0 = nil) or `E<A|C>[ids]` (enum:
+  the member set, sorted ids).
 
   conv step output:   verdict `<doc equals the isolated conversion 0|1>:<changed,…>`, structure `g<idx,…>` (live schemas whose Bag
-  content was rewritten by the conversion).  parse step: verdict `1:<changed,…>`, structure `-`.
+  content was rewritten by the conversion) `m<members the document shows>` (with a <def>: `convLiteral` run on the definition
+  allocated in the history's store) `r<registry entries>`.  parse step: verdict `1:<changed,…>`, structure `-`.
 -/
 import Gozod.Drv.C08
+import Gozod.Model.DefData
 namespace Gozod.Drv.C12
-open Gozod.Store Gozod.Drv.C08
+open Gozod.Store Gozod.Drv.C08 Gozod.DefData
 
 /-! registry entries and registry-writing checks as the harness codes them:
     entry `-` | `<id>.<title>.<descr>.<e1>+<e2>+…`; check `D<descr>` | `M<id>.<title>.<descr>.<examples>`;
@@ -56,13 +62,30 @@ def insertSorted (x : Nat) : List Nat → List Nat
   | [] => [x]
   | y :: ys => if x < y then x :: y :: ys else if x == y then y :: ys else y :: insertSorted x ys
 
+/-- the converter's reading of the definition `dtok` in store `σ`: the store afterwards and the `m…` structure part -/
+def defRead (σ : Store) (dtok : String) : Store × String :=
+  if dtok == "0" then (σ, "") else
+  let kind := dtok.take 1
+  let acc := if (dtok.drop 1).take 1 == "A" then Acc.alias else Acc.copy
+  let code := (dtok.drop 2).toString
+  if kind == "E" then (σ, "m" ++ code)          -- convertEnum: the member set (order: see Gen/ConvAccess, map ranges)
+  else
+    match parseGraph σ code with
+    | (σ1, some (.ref l)) =>
+      let r := convLiteral acc σ1 l
+      (r.1, "m" ++ showGraph 8 r.1.heap (.ref r.2))
+    | (σ1, _) => (σ1, "m-")
+
 def stepModel12 (cfg : Cfg) (st : St) (toks : List String) : Option St :=
   match toks with
-  | [recv, "conv", _opt, _, metas, _, _, _, _] => do
+  | [recv, "conv", _opt, dtok, metas, _, _, _, _] => do
     let i ← recv.toNat?
     let s ← st.live[i]?
     let visits ← parseVisits metas
-    let (σ', s', _) := convert cfg st.σ s
+    -- the definition's member list is allocated in the history's store and read by the converter there: every live
+    -- schema's observation is compared before (st.σ) and after (σ') both the reading and the Bag part of the conversion
+    let (σd, mpart) := defRead st.σ dtok
+    let (σ', s', _) := convert cfg σd s
     let before := st.live.map (obs st.σ.heap)
     let after := st.live.map (obs σ'.heap)
     let noBag (o : Obs) : Obs := { o with bag := none }
@@ -78,7 +101,7 @@ def stepModel12 (cfg : Cfg) (st : St) (toks : List String) : Option St :=
     -- the document is a function of the observation: equal to the isolated conversion iff the observation is
     let same := (obs σ'.heap s').checks == (obs st.σ.heap s).checks   -- checks never change; bag effects show in `changed`
     let r := if posts.isEmpty then "" else "r" ++ ",".intercalate (posts.map (fun p => s!"{p.1}={showGMeta p.2.2}"))
-    let g := s!"g{idxList bagChanged}{r}"
+    let g := s!"g{idxList bagChanged}{mpart}{r}"
     some { st with σ := σ', verdicts := st.verdicts ++ [s!"{if same then 1 else 0}:{idxList changed}"],
                    structs := st.structs ++ [g] }
   | [_recv, "parse", _, _, _, _, _, _, _] =>
